@@ -69,7 +69,15 @@ def jobs(tier, seed):
             outer.insert(0, {'k': rng.choice(W_OUT), 'rel': None})
         if rng.random() < 0.5:
             outer.append({'k': rng.choice(W_OUT), 'rel': None})
-        out.append({'prog': {'steps': outer}, 'reg': False})
+        out.append({'prog': {'steps': outer}, 'reg': rng.choice([False, False, True, 'shared'])})
+    # sibling blocks (and a block inside a block) that read their count from one shared registry entry
+    for r in reps[1:]:
+        for a in small[:6]:
+            for b in small[:3]:
+                sa, sb = dict(a, rep=r), dict(b, rep=r)
+                out.append({'prog': {'steps': [{'k': ['S', sa], 'rel': None}, {'k': ['S', sb], 'rel': None}]}, 'reg': 'shared'})
+                out.append({'prog': {'steps': [{'k': ['S', {'steps': [{'k': W_IN[1], 'rel': None}, {'k': ['S', sb], 'rel': None}], 'rep': r}], 'rel': None},
+                                               {'k': ['S', sa], 'rel': ['F', 0]}]}, 'reg': 'shared'})
     # repeated top-level circuit
     for p in gen.sample(inner, 120 if tier == 'quick' else 400, seed + 9):
         for r in reps[1:]:
@@ -168,7 +176,7 @@ def run(ctx, params):
             # registry-provided counts: re-point every repeated sub-circuit at a registry entry carrying the same count
             for n in built.all_nodes:
                 if n.is_sub and n.rep > 1:
-                    key = f"rep{n.label()}"
+                    key = f"rep{n.label()}" if params['reg'] != 'shared' else f"count{n.rep}"
                     registry.set_registry_at(key, n.rep)
                     n.obj.repetition_strategy = RegistryRepetitionStrategy(registry=registry, registry_key=key)
         leaves = built.leaves()
